@@ -399,6 +399,10 @@ impl<'a, T> Iterator for WindowIterator<'a, T> {
 	}
 
 	fn last(self) -> Option<Self::Item> {
+		if self.size == 0 {
+			return None;
+		}
+
 		Some(self.window.oldest())
 	}
 }
@@ -456,6 +460,10 @@ impl<'a, T> Iterator for ReversedWindowIterator<'a, T> {
 	}
 
 	fn last(self) -> Option<Self::Item> {
+		if self.size == 0 {
+			return None;
+		}
+
 		Some(self.window.newest())
 	}
 }
